@@ -17,6 +17,25 @@ CHECKS = {
         note='trusted: mc/model/reflex.py + refparse.py (written from the published grammar/operator table); '
              'soundness of both-dead pruning (online parsers)',
         design='4/C06'),
+    'C16': dict(
+        engine='E1+E2',
+        technique='bounded exhaustive enumeration of strings, truncations and failing-leaf programs; exception class observed '
+                  'on the real parse/eval/list_names, failing node identified by an external tracer',
+        text='Every string of the token/character spaces and every truncation of every small sentence goes through parse, eval '
+             'and list_names (also twice through a parser with a parse cache); every small sentence context gets each listed '
+             'failure kind substituted at every leaf position, and when the tracer sees the failing node raise, the class must be '
+             'ParserError; deep nesting is swept in subprocesses. Complete within the bounds.',
+        note='trusted: reference lexer/parser decide which texts are not programs; tracer wraps Op.eval from outside',
+        design='4/C16'),
+    'C20': dict(
+        engine='E1+E2',
+        technique='bounded exhaustive enumeration of erroneous token strings and of stray-token / truncation / deletion variants '
+                  'of laid-out programs; message checked against the reference parser\'s offending token and physical line',
+        text='For every erroneous text in the enumerated spaces the reference parser names the first token that can not continue '
+             'a program; the real message must contain that token and its physical line (or say end of input). Complete within '
+             'the bounds (token strings, separators x multi-line bracket layouts x stray tokens at every position).',
+        note='trusted: reference lexer/parser; message wording is free apart from token text, `line <n>` and an end-of-input phrase',
+        design='4/C20'),
 }
 
 NOT_YET = {}
